@@ -278,8 +278,11 @@ class ConcurrentExecutor(ABC, Generic[CallableType, ResultType]):
                 if self._fatal_exception:
                     raise self._fatal_exception
 
-                # Suspend execution if everything done and at least one of the tasks raised a suspend exception.
-                if self._suspend_exception:
+                # Suspend execution if everything done and at least one of the tasks raised a suspend exception -
+                # unless the completion policy has been decided in the meantime: a branch that finishes
+                # publishes its state before it is counted, and a sibling that suspends in between sees
+                # "undecided" and "nothing running". The decided operation returns its result.
+                if self._suspend_exception and not self.counters.should_complete():
                     raise self._suspend_exception
 
         finally:
